@@ -103,6 +103,21 @@ func checkC06(c *Check) {
 		v, ok := e.argInt(2)
 		c.Cond(ok && v == 0, "2/scratch-discipline", "fcntl-clear:"+e.Site, x.pos(e), "fcntl(F_SETFD, 0) clears close-on-exec for an entry already in place", "fcntl(F_SETFD) sets flags "+e.argDesc(2))
 	}
+	for _, e := range fc {
+		// the descriptor whose flag is cleared is the one that was found to sit at its own slot: the guard contains
+		// the equality "<that descriptor> == <slot index>" about the very value handed to fcntl
+		subj := describe(stripConv(e.arg(0)))
+		okSubj := false
+		for _, a := range Support(e.Guard) {
+			if strings.HasPrefix(a, subj+" == ") && !strings.HasSuffix(a, "== -1") {
+				if v, _, _ := Valid(fImp(e.Guard, fLit(a))); v {
+					okSubj = true
+				}
+			}
+		}
+		c.Cond(okSubj, "2/scratch-discipline", "fcntl-subject:"+e.Site, x.pos(e), "the in-place test is about the descriptor whose flag is cleared",
+			"fcntl clears close-on-exec of "+subj+" under "+e.Guard.String()+", which does not test that same value against its slot: after pass 1 moved an entry to a scratch slot the flag is cleared on the scratch duplicate (it leaks into the program) or on nothing")
+	}
 	c.Cond(len(fc) == 1, "2/scratch-discipline", "fcntl-site", p.Pos(child.Pos()), "in-place arm present", fmt.Sprintf("%d fcntl(F_SETFD) sites (expected 1): an entry already at its slot keeps close-on-exec", len(fc)))
 
 	// skip loops: reserved descriptors other than the source
@@ -149,12 +164,17 @@ func checkC06(c *Check) {
 			if !ok || bo.Op != token.EQL {
 				continue
 			}
-			var other ssa.Value
+			var other, cur ssa.Value
 			if isCursor(bo.X) {
-				other = bo.Y
+				other, cur = bo.Y, bo.X
 			} else if isCursor(bo.Y) {
-				other = bo.X
+				other, cur = bo.X, bo.Y
 			} else {
+				continue
+			}
+			// the value the loop has stepped past the reserved descriptors is the very value used as the slot:
+			// a skip made once before an allocating loop does not protect the slots of its later rounds
+			if stripConv(cur) != stripConv(e.arg(1)) {
 				continue
 			}
 			if isSyncChannel(other, child) {
@@ -174,7 +194,7 @@ func checkC06(c *Check) {
 		c.Cond(len(missing) == 0, "2/scratch-discipline", "skip-reserved:"+e.Site, x.pos(e), "scratch slot is advanced past every live reserved descriptor",
 			"the scratch slot chosen for this duplicate is not advanced past the "+strings.Join(missing, " and the ")+": dup3 would silently replace it")
 	}
-	c.Expect("2/scratch-discipline", 11)
+	c.Expect("2/scratch-discipline", 12)
 
 	// ---------- 5: pass 2 completeness ----------
 	var pass2 []*e1Event
